@@ -57,6 +57,10 @@ func finishProperty(st *kvh.Stats) { st.Complete() }
 // used by both the generated runs and the replay of saved cases.
 var historySetups = map[string]func(r *kvh.Runner){}
 
+// reuseBuffers names the history properties whose generated callers reuse (and overwrite) their key/value
+// buffers in half of the cases. Replays of such cases run with reuse on (a superset of what failed).
+var reuseBuffers = map[string]bool{"C01": true, "C02": true, "C05": true, "C06": true, "C17": true, "C20": true}
+
 // replayers run a saved case of the given kind and return its failure.
 var replayers = map[string]func(c *kvh.Case, raw []byte) *kvh.Fail{
 	"history": replayHistory,
@@ -70,6 +74,9 @@ func replayHistory(c *kvh.Case, raw []byte) *kvh.Fail {
 	defer r.Cleanup()
 	if setup := historySetups[c.Property]; setup != nil {
 		setup(r)
+	}
+	if r.Poison == nil && reuseBuffers[c.Property] && strings.Contains(c.Note, "reuse") {
+		r.Poison = kvh.NewPoisonBufs()
 	}
 	for _, op := range c.Ops {
 		if f := r.Step(op); f != nil {
@@ -92,6 +99,17 @@ func scaleRapidChecks(factor int) func() {
 		return func() {}
 	}
 	_ = flag.Set("rapid.checks", strconv.Itoa(n*factor))
+	return func() { _ = flag.Set("rapid.checks", old) }
+}
+
+// setRapidChecks sets -rapid.checks to n until the returned function is called.
+func setRapidChecks(n int) func() {
+	f := flag.Lookup("rapid.checks")
+	if f == nil {
+		return func() {}
+	}
+	old := f.Value.String()
+	_ = flag.Set("rapid.checks", strconv.Itoa(n))
 	return func() { _ = flag.Set("rapid.checks", old) }
 }
 
@@ -156,6 +174,11 @@ func runHistoryCase(t *rapid.T, property string, prof *kvh.GenProfile, nonTrivia
 	defer r.Cleanup()
 	if setup := historySetups[property]; setup != nil {
 		setup(r)
+	}
+	if r.Poison == nil && reuseBuffers[property] && kvh.Pct(t, 50, "reusebuffers") {
+		// a legal caller: one key buffer and one value buffer for every call, overwritten after each return
+		r.Poison = kvh.NewPoisonBufs()
+		st.Label("caller-reuses-and-overwrites-its-buffers")
 	}
 	kvh.SetInFlight(&kvh.InFlight{Property: property, Case: func() any { return r.AsCase(property, "history", first) }})
 	defer kvh.SetInFlight(nil)
